@@ -109,6 +109,9 @@ def write_replay(prop, name, payload):
 
 
 def main(prop, mod, tier, seed):
+    os.environ['VERIF_ACTIVE_TIER'] = tier
+    if tier == 'thorough' and 'VERIF_CVC5_SAMPLE' not in os.environ:
+        os.environ['VERIF_CVC5_SAMPLE'] = '25'       # thorough: every 25th discharged obligation is re-checked by cvc5
     t0 = time.time()
     kf = load_known_findings()
     my_findings = [f for f in kf.get('findings', []) if f['property'] == prop]
@@ -243,7 +246,11 @@ def main(prop, mod, tier, seed):
             units=len([u for u in units if not u.expect_fail]),
             canaries_failing_as_required=canaries_ok,
             functions_under_contract=sorted({f for u in units for f in u.functions}),
-            backends=dict(z3=total),
+            backends=dict(z3=total, cvc5_second_opinion=dict(
+                sampled_every=int(os.environ.get('VERIF_CVC5_SAMPLE', '0') or 0),
+                confirmed_unsat=sum((r.extra.get('cvc5') or {}).get('confirmed_unsat', 0) for r in results),
+                no_answer_within_10s=sum((r.extra.get('cvc5') or {}).get('no_answer', 0) for r in results),
+                disagreed=sum((r.extra.get('cvc5') or {}).get('disagreed_sat', 0) for r in results))),
             solver_seconds=round(sum(r.solver_s for r in results), 2),
             solver_queries=sum(r.queries for r in results),
             paths=sum(r.paths + r.cut_paths for r in results),
